@@ -301,7 +301,10 @@ class EncodeRows(Filter[Iterable[Union[Dense,Sparse]],Iterable[Union[Dense,Spars
         if isinstance(first,Dense):
             if isinstance(enc,abc.Mapping):
                 if hasattr(first, 'headers'):
-                    enc = [ enc.get(h, enc.get(i, lambda x:x)) for i,h in enumerate(first.headers) ]
+                    #headers maps name to column, in any order and not necessarily for every column
+                    hdrs  = first.headers
+                    names = { i:h for h,i in hdrs.items() } if isinstance(hdrs,abc.Mapping) else dict(enumerate(hdrs))
+                    enc   = [ enc.get(names.get(i,i), enc.get(i, lambda x:x)) for i in range(len(first)) ]
                 else:
                     enc = [ enc.get(i, lambda x:x)             for i   in range(len(first))        ]
             return ( EncodeDense(row, enc) for row in rows )
@@ -406,7 +409,9 @@ class DropRows(Filter[Iterable[Union[Dense,Sparse]], Iterable[Union[Dense,Sparse
     def make_drop_row_args(first, drop_cols) -> Tuple:
         if isinstance(first,Dense):
             try:
-                selects = [ not any(i in drop_cols for i in I) for I in enumerate(first.headers) ]
+                #headers maps name to column, in any order and not necessarily for every column
+                names   = { i:h for h,i in first.headers.items() }
+                selects = [ i not in drop_cols and names.get(i,i) not in drop_cols for i in range(len(first)) ]
                 headers = first.headers.items()
                 indexes = list(compress(range(len(first)), selects))
             except:
